@@ -239,3 +239,95 @@ pub fn names_for(prog: &Program, strategy: Strategy, t: &mut Tape) -> (Names, u3
         }
     }
 }
+
+/* ---------------------- token-level capture-free renaming ---------------------- */
+
+const KEYWORDS: &[&str] = &[
+    "let", "in", "do", "ret", "fn", "match", "comatch", "end", "begin", "that", "def", "fix", "param", "data", "codata",
+    "forall", "exists", "as", "import", "intrinsic", "pi", "sigma", "define", "_",
+];
+
+fn is_ident(t: &str) -> bool {
+    let mut cs = t.chars();
+    match cs.next() {
+        | Some(c) if c.is_ascii_alphabetic() || c == '_' => {}
+        | _ => return false,
+    }
+    cs.all(|c| c.is_ascii_alphanumeric() || c == '_' || c == '\'') && !KEYWORDS.contains(&t)
+}
+
+/// Rename lexical term binders in a token stream printed under unique names with scope markers
+/// (`Printer::scopes`).  A binder may take *any* identifier of the program that does not occur inside its own
+/// scope — a type name from its own annotation, a package name, another binder's name — because nothing in
+/// its scope can then start referring to it, and nothing outside its scope can see it.  Components of one
+/// pattern (same scope start) keep distinct names.  Returns (binders renamed, of which named after a token of
+/// their own binding site: annotation or bindee).
+pub fn rename_tokens(tokens: &mut [String], unique: &[String], t: &mut Tape, budget: usize) -> (u32, u32) {
+    use std::collections::BTreeMap;
+    let mut start: BTreeMap<u32, usize> = BTreeMap::new();
+    let mut end: BTreeMap<u32, usize> = BTreeMap::new();
+    for (i, tok) in tokens.iter().enumerate() {
+        if let Some(rest) = tok.strip_prefix('\u{1}') {
+            if let Ok(b) = rest[1..].parse::<u32>() {
+                if rest.starts_with('S') {
+                    start.insert(b, i);
+                } else {
+                    end.insert(b, i);
+                }
+            }
+        }
+    }
+    let mut bids: Vec<u32> = start.keys().copied().filter(|b| end.contains_key(b)).collect();
+    // random order
+    for i in (1..bids.len()).rev() {
+        bids.swap(i, t.below(i + 1));
+    }
+    // occurrences by position, fixed before anything is renamed (a binder may adopt another binder's name)
+    let occurrences: BTreeMap<u32, Vec<usize>> = bids
+        .iter()
+        .map(|b| (*b, unique.get(*b as usize).map(|own| tokens.iter().enumerate().filter(|(_, x)| *x == own).map(|(i, _)| i).collect()).unwrap_or_default()))
+        .collect();
+    let mut current: BTreeMap<u32, String> = BTreeMap::new();
+    let (mut renamed, mut own_site) = (0u32, 0u32);
+    for b in bids.into_iter().take(budget) {
+        let (s, e) = (start[&b], end[&b]);
+        let Some(own) = unique.get(b as usize) else { continue };
+        // the binding occurrence: the last occurrence before the scope start
+        let Some(bind_at) = occurrences[&b].iter().copied().filter(|i| *i < s).max() else { continue };
+        // siblings: binders whose scope starts together with this one (only markers in between)
+        let sibling_names: Vec<String> = start
+            .iter()
+            .filter(|(c, cs)| **c != b && {
+                let (lo, hi) = if **cs < s { (**cs, s) } else { (s, **cs) };
+                tokens[lo..hi].iter().all(|x| x.starts_with('\u{1}'))
+            })
+            .map(|(c, _)| current.get(c).cloned().unwrap_or_else(|| unique[*c as usize].clone()))
+            .collect();
+        let in_scope: std::collections::BTreeSet<&str> = tokens[s..e].iter().map(|x| x.as_str()).collect();
+        // candidates: identifiers outside the scope; prefer those of the binding site (annotation / bindee)
+        let site: Vec<String> = tokens[bind_at + 1..s].iter().filter(|x| is_ident(x)).cloned().collect();
+        let elsewhere: Vec<String> = tokens[..bind_at].iter().chain(tokens[e..].iter()).filter(|x| is_ident(x)).cloned().collect();
+        let pool: Vec<String> = if !site.is_empty() && t.chance(170) { site.clone() } else { elsewhere };
+        if pool.is_empty() {
+            continue;
+        }
+        let pick = pool[t.below(pool.len())].clone();
+        if pick == *own || in_scope.contains(pick.as_str()) || sibling_names.contains(&pick) {
+            continue;
+        }
+        // the binding site of a pattern with several binders lists the siblings: a name equal to a sibling's
+        // unique name is excluded above; a name that some *enclosing* construct binds is fine (shadowing)
+        if std::env::var_os("VERIF_RENAME_DEBUG").is_some() {
+            eprintln!("rename v{b} ({own}) -> {pick}; scope tokens {s}..{e}; pick in scope: {}", tokens[s..e].iter().any(|x| *x == pick));
+        }
+        for i in &occurrences[&b] {
+            tokens[*i] = pick.clone();
+        }
+        if site.contains(&pick) {
+            own_site += 1;
+        }
+        current.insert(b, pick);
+        renamed += 1;
+    }
+    (renamed, own_site)
+}
